@@ -1,5 +1,6 @@
 import SFV.Proofs.Optimize
 import SFV.Proofs.OptimizeExample
+import SFV.Proofs.OptimizeGauss
 import SFV.Gen.OpTable
 
 /-!
@@ -25,7 +26,7 @@ preparation, Fourier · Fourier† = 1), for every well-formed circuit `l` and *
 whose grid is the optimised grid (whatever topological order `DAG_to_list` picks):
 `sem f out = sem f l`. -/
 theorem optimize_sem {M : Type} [Monoid M] (f : Cmd → M)
-    (hcomm : ∀ a b, ¬ dep a b → f a * f b = f b * f a) (L : Lawful f) (B : Nat)
+    (hcomm : ∀ a b, ¬ dep a b → f a * f b = f b * f a) (L : Lawful (fun r => r.length = 1) f) (B : Nat)
     (l out : List Cmd) (hwf : ∀ c ∈ l, WFc c) (hout : ∀ c ∈ out, c.wires ≠ [])
     (hrows : ∀ w, gridRow out w = optRow B (gridRow l w)) : sem f out = sem f l :=
   optGrid_sem f hcomm WFc (fun _ h => h.2) (tryMerge B) (tryMerge_ok L B) l out hwf hout hrows
@@ -33,7 +34,7 @@ theorem optimize_sem {M : Type} [Monoid M] (f : Cmd → M)
 /-- the same, through the executable checker the harness runs on every list the real optimiser
 returns -/
 theorem optimize_checked_sem {M : Type} [Monoid M] (f : Cmd → M)
-    (hcomm : ∀ a b, ¬ dep a b → f a * f b = f b * f a) (L : Lawful f) (B : Nat)
+    (hcomm : ∀ a b, ¬ dep a b → f a * f b = f b * f a) (L : Lawful (fun r => r.length = 1) f) (B : Nat)
     (l out : List Cmd) (hwf : ∀ c ∈ l, WFc c) (h : isOptOutput B l out = true) :
     sem f out = sem f l :=
   optimize_sem f hcomm L B l out hwf (isOptOutput_sound h).1 (isOptOutput_sound h).2
@@ -41,7 +42,7 @@ theorem optimize_checked_sem {M : Type} [Monoid M] (f : Cmd → M)
 /-- the optimised grid is always the grid of some list (the merge loops never create a cycle), and
 that list has the meaning of the input -/
 theorem optimize_linearisable {M : Type} [Monoid M] (f : Cmd → M)
-    (hcomm : ∀ a b, ¬ dep a b → f a * f b = f b * f a) (L : Lawful f) (B : Nat)
+    (hcomm : ∀ a b, ¬ dep a b → f a * f b = f b * f a) (L : Lawful (fun r => r.length = 1) f) (B : Nat)
     (l : List Cmd) (hwf : ∀ c ∈ l, WFc c) :
     ∃ out, (∀ w, gridRow out w = optRow B (gridRow l w)) ∧ sem f out = sem f l :=
   let ⟨out, h1, h2, _⟩ := optGrid_linearisable f hcomm WFc (tryMerge B) (tryMerge_ok L B) l hwf
@@ -52,16 +53,62 @@ theorem optimize_linearisable {M : Type} [Monoid M] (f : Cmd → M)
 Proved for every class except those in `knownUnlawful` (= `MZgate`, which inherits `Gate.merge`
 although its first parameter is not additive, see `mzgate_merge_counterexample`); missing hypothesis
 for the full statement: `a.cls ∉ knownUnlawful`. -/
-theorem merge_sound_partial {M : Type} [Monoid M] (f : Cmd → M) (L : Lawful f) (a b : Cmd)
-    (hr : a.regs = b.regs) (hda : a.deps = []) (hdb : b.deps = []) (hK : a.cls ∉ knownUnlawful) :
+theorem merge_sound_partial {M : Type} [Monoid M] (f : Cmd → M) (dom : List Nat → Prop)
+    (L : Lawful dom f) (a b : Cmd) (hdom : dom a.regs) (hr : a.regs = b.regs) (hda : a.deps = []) (hdb : b.deps = []) (hK : a.cls ∉ knownUnlawful) :
     (opMerge a b = .identity → f a * f b = 1) ∧
     (∀ op, opMerge a b = .merged op → ∀ i, f a * f b = f { op with id := i, regs := a.regs }) :=
-  ⟨(opMerge_sound L a b hr hda hdb hK).1, fun op h => ((opMerge_sound L a b hr hda hdb hK).2 op h).2⟩
+  ⟨(opMerge_sound L a b hdom hr hda hdb hK).1, fun op h => ((opMerge_sound L a b hdom hr hda hdb hK).2 op h).2⟩
 
 /-- the unlawful class is out of reach of the optimiser (`ns = 2`), so `optimize_sem` needs no
 assumption about it -/
 theorem unlawful_unreachable (c : Cmd) (h : nsOf c = some 1) : c.cls ∉ knownUnlawful :=
   ns1_not_knownUnlawful h
+
+/-! ### the physical instance: Gaussian circuits
+
+`GaussSem.gf θ c` is the channel on first and second moments of all quadratures (hbar = 2) that
+the command `c` implements — `μ ↦ Aμ + d`, `V ↦ AVAᵀ + Y` on the quadratures of its targets —
+with the documented blocks of `Rgate`, `Sgate`, `Pgate`, `Dgate`, `Xgate`, `Zgate`, `Fouriergate`,
+`LossChannel`, `ThermalLossChannel`, the Gaussian preparations, `BSgate`, `S2gate`, `CXgate`,
+`CZgate` (non-Gaussian, matrix-parametrised and measurement commands are place holders).  Its family
+laws are *proved* (`GaussSem.rot_add`, `sq_add`, `shear_add`, `disp_add`, `x_add`, `z_add`,
+`fourier_cancel`, `loss_mul`, `prep_absorb_loc`, … from the angle-addition formulas), commands on
+disjoint modes commute (`GaussSem.gf_comm`), so the Lawful hypothesis of `optimize_sem` is discharged. -/
+
+/-- **the optimiser does not change the Gaussian channel a circuit implements** — for every circuit,
+every valuation `θ` of the symbolic parameters, every linearisation of the optimised grid; no
+hypothesis about the interpretation is left -/
+theorem optimize_gaussian (θ : Nat → Rat) (B : Nat) (l out : List Cmd) (hwf : ∀ c ∈ l, WFc c)
+    (hout : ∀ c ∈ out, c.wires ≠ []) (hrows : ∀ w, gridRow out w = optRow B (gridRow l w)) :
+    sem (GaussSem.gf θ) out = sem (GaussSem.gf θ) l :=
+  optimize_sem (GaussSem.gf θ) (GaussSem.gf_comm θ) (GaussSem.gaussLawful θ) B l out hwf hout hrows
+
+/-- the same through the executable checker -/
+theorem optimize_gaussian_checked (θ : Nat → Rat) (B : Nat) (l out : List Cmd) (hwf : ∀ c ∈ l, WFc c)
+    (h : isOptOutput B l out = true) : sem (GaussSem.gf θ) out = sem (GaussSem.gf θ) l :=
+  optimize_checked_sem (GaussSem.gf θ) (GaussSem.gf_comm θ) (GaussSem.gaussLawful θ) B l out hwf h
+
+/-- **tie to the K3 specification**: the channel of a single-mode block `[[a, b], [c, d]]` on mode
+`k` acts on symmetric xp data exactly as `linMap (rows1 k a b c d)` of `SFV.Model.PhaseSpace`
+(`rotRows`, `squeezeRows`, `lossRows` are such blocks; `SFV.Proofs.GaussNM` ties them to the
+simulator's entrywise updates) -/
+theorem gaussian_block_is_k3_spec (k : Nat) (a b c d : ℝ) (V : Gauss.XP ℝ)
+    (hxx : ∀ i j, V.xx i j = V.xx j i) (hpp : ∀ i j, V.pp i j = V.pp j i) :
+    (GaussSem.loc1 k (GaussSem.m2 a b c d) GaussSem.zero2 GaussSem.zerov).act.run (GaussSem.ofXP V) =
+      GaussSem.ofXP (Gauss.linMap (Gauss.rows1 k a b c d) V) :=
+  GaussSem.loc1_eq_linMap k a b c d V hxx hpp
+
+/-- **merge rules are sound for the physical Gaussian interpretation**, on one target or two different
+targets: `Rgate`/`Sgate`/`Pgate`/`Dgate`/`Xgate`/`Zgate`/`Fouriergate`/(thermal) loss/preparations and
+`BSgate`/`S2gate` (equal phase), `CXgate`, `CZgate` — `None` only for the identity channel, otherwise the
+merged command implements the composition (instance of `merge_sound_partial`; the additive laws are
+proved in `SFV.Proofs.OptimizeGauss` from the angle-addition formulas) -/
+theorem merge_sound_gaussian (θ : Nat → Rat) (a b : Cmd) (hdom : GaussSem.Dom2 a.regs) (hr : a.regs = b.regs)
+    (hda : a.deps = []) (hdb : b.deps = []) (hK : a.cls ∉ knownUnlawful) :
+    (opMerge a b = .identity → GaussSem.gf θ a * GaussSem.gf θ b = 1) ∧
+    (∀ op, opMerge a b = .merged op →
+      ∀ i, GaussSem.gf θ a * GaussSem.gf θ b = GaussSem.gf θ { op with id := i, regs := a.regs }) :=
+  merge_sound_partial (GaussSem.gf θ) _ (GaussSem.gaussLawful2 θ) a b hdom hr hda hdb hK
 
 /-- twice the documented Mach–Zehnder matrix `U(φ_in, φ_ex)` with `u = e^{iφ_in}`, `v = e^{iφ_ex}`
 Gaussian integers `(re, im)`: `[[(-1+u)v, i(1+u)], [i(1+u)v, 1-u]]` -/
@@ -103,6 +150,17 @@ theorem optimize_pure (B : Nat) (row : List Cmd) : ∀ c ∈ optRow B row, c ∈
 theorem optimize_terminates (B : Nat) (row : List Cmd) (k : Nat) :
     optLoop (tryMerge B) (optFuel row.length + k) [] row = optRow B row :=
   optLoop_fuel_add (tryMerge B) row k
+
+/-- **completeness.**  In an optimised row no two neighbours can be merged any more: the loop body
+leaves every neighbouring pair alone (the backtracking `i -= 1` is what makes this true) -/
+theorem optimize_complete (B : Nat) (row : List Cmd) :
+    List.IsChain (fun a b => tryMerge B a b = .advance) (optRow B row) :=
+  optRow_chain B row
+
+/-- **idempotence.**  Optimising an optimised row changes nothing (whatever identities new commands
+would get) — the harness checks `optimize()` of an optimised program against this -/
+theorem optimize_idempotent (B B' : Nat) (row : List Cmd) : optRow B' (optRow B row) = optRow B row :=
+  optRow_idem B B' row
 
 /-- the optimiser never lengthens a wire -/
 theorem optRow_length_le (B : Nat) (row : List Cmd) : (optRow B row).length ≤ row.length := by
@@ -189,7 +247,12 @@ example : isOptOutput 12 ex exOut = true ∧ (∀ c ∈ ex, WFc c) ∧ exOut.len
 transformers on one rational amplitude per mode: translations, scalings, overwriting preparations —
 a non-commutative monoid), instantiated at the circuit above -/
 example : sem Toy.f exOut = sem Toy.f ex :=
-  optimize_checked_sem Toy.f Toy.f_comm Toy.lawful 12 ex exOut (by decide +kernel) (by decide +kernel)
+  optimize_checked_sem Toy.f Toy.f_comm (Toy.lawful.mono fun _ _ => trivial) 12 ex exOut (by decide +kernel) (by decide +kernel)
+
+/-- the physical instance at the same circuit: the optimised circuit implements the same Gaussian
+channel, for every value of the measured parameter -/
+example (θ : Nat → Rat) : sem (GaussSem.gf θ) exOut = sem (GaussSem.gf θ) ex :=
+  optimize_gaussian_checked θ 12 ex exOut (by decide +kernel) (by decide +kernel)
 
 /-- a list in which the two rotations were *not* merged, or merged to the wrong angle, is rejected -/
 example : isOptOutput 12 ex ex = false ∧
@@ -213,6 +276,20 @@ example :
     opMerge { id := 0, cls := "GaussianTransform", regs := [0], pars := [.num 2, .num 0, .num 0, .num (1/2)] }
       { id := 1, cls := "GaussianTransform", regs := [0], pars := [.num (1/2), .num 0, .num 0, .num 2] } = .identity := by
   decide +kernel
+
+example : optRow 40 (optRow 12 (gridRow ex 2)) = optRow 12 (gridRow ex 2) ∧
+    (optRow 12 (gridRow ex 2)).length < (gridRow ex 2).length := by decide +kernel
+
+def bsA : Cmd := { id := 0, cls := "BSgate", regs := [2, 0], pars := [.num (1/2), .num (1/4)] }
+def bsB : Cmd := { id := 1, cls := "BSgate", regs := [2, 0], pars := [.num (1/4), .num (1/4)], dagger := true }
+def bsM : Cmd := { bsA with pars := [.num (1/4), .num (1/4)] }
+
+/-- two beamsplitters on the same (descending) ordered pair, the second daggered, are merged by
+`merge` (not by the optimiser) into `BSgate(1/2 − 1/4, 1/4)`, and the physical interpretation agrees -/
+example (θ : Nat → Rat) :
+    GaussSem.gf θ bsA * GaussSem.gf θ bsB = GaussSem.gf θ { bsM with id := 7, regs := bsA.regs } :=
+  (merge_sound_gaussian θ bsA bsB (Or.inr ⟨2, 0, rfl, by decide⟩) rfl rfl rfl (by decide)).2 bsM
+    (by decide +kernel) 7
 
 example : optRow 12 (gridRow ex 3) = [ex[9]!, ex[10]!] ∧ (optRow 12 (gridRow ex 2)).length = 2 := by decide +kernel
 
